@@ -283,11 +283,14 @@ impl RawRwLock {
 impl RawRwLock {
     /// `state`, inner mutex word; listeners of the inner mutex, `no_readers`, `no_writer`.
     pub(super) fn __verif_snapshot(&self) -> crate::__verif::Snapshot {
+        crate::__verif::unrecorded(|| {
         let mut snap = self.mutex.__verif_snapshot();
         snap.words.insert(0, self.state.load(Ordering::SeqCst));
+        snap.addrs.insert(0, &self.state as *const _ as usize);
         snap.events.push(crate::__verif::event(&self.no_readers));
         snap.events.push(crate::__verif::event(&self.no_writer));
         snap
+        })
     }
 }
 
